@@ -282,13 +282,16 @@ def gen_opts(rng, names, extra_names=(), nmax=3, kinds=None):
             continue
         used.add(k)
         v, t, dom = gen_optval(rng, kinds and rng.choice(kinds))
+        if k == 'params':      # VideoOut: a JSON object of encoder parameters; the same few texts recur from output to output and case to case
+            v = rng.choice([{'crf': 23}, {'crf': 28}, {'preset': 'fast'}, {}])
+            t, dom = json.dumps(v, separators=(',', ':')) if rng.random() < 0.5 else json.dumps(v, separators=(', ', ': ')), False
         out.append((k, v, t, dom))
     return out
 
 # ---------------------------------------------------------------- abstract configurations per class
 OPTS = dict(VideoIn=['bgr', 'sync', 'loop', 'maxfps', 'maxsize', 'resize', 'region', 'expiration'],
             ImageIn=['loop', 'recursive', 'pattern', 'region', 'maxfps'],
-            VideoOut=['bgr', 'fps', 'segtime', 'crf', 'g', 'preset', 'pix_fmt', 'vf'],
+            VideoOut=['bgr', 'fps', 'segtime', 'crf', 'g', 'preset', 'pix_fmt', 'vf', 'params'],
             ImageOut=['bgr', 'format', 'quality', 'compression', 'zzz'],
             Recorder=['append', 'x'])
 SCHEMES = dict(VideoIn=['file://', 'rtsp://', 'rtsp://', 'http://', 'https://', 'webcam://', 's3://', 'rtmp://', 'jfrog://'],
